@@ -220,7 +220,10 @@ def report(prop, tier, seed, results, bounded, kf, known_by_id, wall, a, selftes
     level = LEVELS.get(prop, "proof")
     backends = {}
     for o in discharged: backends[o["backend"]] = backends.get(o["backend"], 0) + 1
-    samples = [{"obligation": o["name"], "exit": o.get("exit"), "status": o["status"], "backend": o["backend"], "seconds": o["seconds"]} for o in n_proof[:6]]
+    with_smt = [o for o in n_proof if o.get("smt2_sample")]
+    pick = [o for o in n_proof if o["kind"] in ("post", "raises", "frame", "inv")][:5] + with_smt[:2]
+    samples = [{"obligation": o["name"], "exit": o.get("exit"), "where": o.get("where"), "status": o["status"], "backend": o["backend"], "seconds": o["seconds"],
+                **({"smt2 (assumptions ∧ exit condition ∧ ¬clause; unsat = discharged)": o["smt2_sample"]} if o.get("smt2_sample") and o in with_smt[:2] else {})} for o in pick]
     stamp = load_json(os.path.join(ROOT, ".tmp", "lemma_stamp.json"), None)
     cur = __import__("hashlib").sha256(b"".join(open(os.path.join(ROOT, "lemmas", f), "rb").read() for f in sorted(os.listdir(os.path.join(ROOT, "lemmas"))) if f.endswith(".lean"))).hexdigest()[:16]
     lemma_note = (f"Lean lemma library (lemmas/*.lean, hash {cur}) checked by the Lean 4 kernel at setup in {stamp['seconds']}s" if stamp and stamp.get("hash") == cur
